@@ -167,7 +167,7 @@ def Num.shl (a b : Num) : M Num := do
 /-- `a >> b` (arithmetic) -/
 def Num.shr (a b : Num) : M Num := do
   let (t, x, y) ← coerce2 a b
-  if t = .py then (if y < 0 then .error .value else return ⟨t, x / 2 ^ y.toNat⟩)
+  if t = .py then (if y < 0 then .error .value else return ⟨t, x >>> y.toNat⟩)   -- = ⌊x / 2^y⌋, any size of y
   else if 0 ≤ y ∧ y < t.bits then return ⟨t, x / 2 ^ y.toNat⟩
   else return ⟨t, if x < 0 then -1 else 0⟩
 
@@ -286,5 +286,69 @@ def Err.name : Err → String
   | .index => "index" | .unsupported => "unsupported" | .raised n => "raised:" ++ n
 
 def Num.render (a : Num) : String := a.ty.name ++ ":" ++ toString a.v
+
+def Num.parse? (s : String) : Option Num :=
+  match s.splitOn ":" with
+  | [t, v] => do
+    let ty ← Ty.ofName? t
+    let x ← v.toInt?
+    some ⟨ty, x⟩
+  | _ => none
+
+/-- `[py:1,i32:2]` (no blanks) -/
+def parseNumList? (s : String) : Option (List Num) :=
+  let cs := s.toList
+  if cs.length < 2 || cs.head? != some '[' || cs.getLast? != some ']' then none else
+  let inner := String.ofList ((cs.drop 1).dropLast)
+  if inner.isEmpty then some [] else (inner.splitOn ",").mapM Num.parse?
+
+def parseBool? (s : String) : Option Bool :=
+  if s == "true" then some true else if s == "false" then some false else none
+
+class Render (α : Type) where
+  render : α → String
+
+instance : Render Num := ⟨Num.render⟩
+instance : Render Bool := ⟨fun b => if b then "true" else "false"⟩
+instance : Render Unit := ⟨fun _ => "()"⟩
+instance {α β : Type} [Render α] [Render β] : Render (α × β) :=
+  ⟨fun p => "(" ++ Render.render p.1 ++ "," ++ Render.render p.2 ++ ")"⟩
+instance {α : Type} [Render α] : Render (List α) :=
+  ⟨fun l => "[" ++ ",".intercalate (l.map Render.render) ++ "]"⟩
+
+def renderM {α : Type} [Render α] (r : M α) : String :=
+  match r with
+  | .ok v => "ok " ++ Render.render v
+  | .error e => "err " ++ e.name
+
+/-- the run-time operators by name (self-test of this file against the real interpreter) -/
+def evalOp (op : String) (a b : Num) : Option String :=
+  match op with
+  | "add" => some (renderM (Num.add a b))
+  | "sub" => some (renderM (Num.sub a b))
+  | "mul" => some (renderM (Num.mul a b))
+  | "floordiv" => some (renderM (Num.floordiv a b))
+  | "mod" => some (renderM (Num.mod a b))
+  | "shl" => some (renderM (Num.shl a b))
+  | "shr" => some (renderM (Num.shr a b))
+  | "and" => some (renderM (Num.and a b))
+  | "or" => some (renderM (Num.or a b))
+  | "xor" => some (renderM (Num.xor a b))
+  | "pow" => some (renderM (Num.pow a b))
+  | "min" => some (renderM (Num.min a b))
+  | "max" => some (renderM (Num.max a b))
+  | "lt" => some (Render.render (Num.lt a b))
+  | "le" => some (Render.render (Num.le a b))
+  | "gt" => some (Render.render (Num.gt a b))
+  | "ge" => some (Render.render (Num.ge a b))
+  | "eq" => some (Render.render (Num.eq a b))
+  | "ne" => some (Render.render (Num.ne a b))
+  | "neg" => some (renderM (Num.neg a))
+  | "invert" => some (renderM (Num.invert a))
+  | "abs" => some (renderM (Num.abs a))
+  | "int" => some (renderM (Num.int a))
+  | "truthy" => some (Render.render (Num.truthy a))
+  | "cast" => some (renderM (Num.cast b.ty a))      -- the target type is the tag of `b`
+  | _ => none
 
 end VelaVerif.PyRt
